@@ -117,6 +117,19 @@ CHECKS = {
           "by induction over the BFS tree every continuation from every crash point equals the uninterrupted run. Thorough also performs "
           "the restore-and-continue in a fresh process for crash points 0, 1 and T.",
           "Same XLA build and host; histories beyond the depth bound.", "DESIGN.md §4 C14"),
+  "C15": ("explicit-state BFS over all gradient histories up to depth T through the real tearfree update for every configuration "
+          "within deviation k of a base TearfreeOptions, lock-step with an independent float64 reference model; differential lr "
+          "linearity",
+          "Every configuration within 1 (quick) / 2 (thorough) deviations over 15 Shampoo options (+8 interacting pairs) and 10 Sketchy "
+          "options (block size, merge limit, both frequencies, decay, graft type/decay/start/skip rules, ema, nesterov, momentum decay, "
+          "weight decay before/after, constant/scheduled lr, sketch rank, epsilon mode, update frequency) on two trees (blocked and "
+          "padded leaves, unit dims, scalar) is driven through all histories over {gA,gB,g0,gD} (gD: half of the rows scaled 2^-14, so "
+          "that blocks differ in scale) of length <= 3 (4). Every update leaf is compared with -lr(t)*momentum(wd(graft(second_order("
+          "merge+pad(g))))) evaluated in float64 (1e-9 for Shampoo under x64; 2e-4 for float32 Sketchy plus a computed allowance for "
+          "the tail>0 switch when the exact escaped mass is zero), and lr=c against lr=1 (exact for dyadic c).",
+          "optax.adafactor is the trusted base for ADAFACTOR grafting; cases whose eigenvalue ratio lies within a factor 4 of the "
+          "documented 1e-6 cut-off are counted inconclusive (none in the alphabet); float32 Sketchy is not given the 2^-28-spread event.",
+          "DESIGN.md §4 C15"),
   "C16": ("explicit-state BFS over all gradient sequences up to depth T through the real OCO init/update pair, lock-step with "
           "closed forms and an independent NumPy frequent-directions sketch",
           "For every (algorithm in OGD/ADA/S_ADA/ADA_FD/FD_SON/RFD_SON, dimension 2..4 (5), sketch size {2,3}, delta {0,0.5}, lr "
